@@ -56,6 +56,15 @@ Theorem C18_generate_library : forall from to,
 Proof. exact c18_generate_library. Qed.
 Print Assumptions C18_generate_library.
 
+(** For two objects, "no patch generated" (NULL) holds exactly when the two documents are equal. *)
+Theorem C18_no_patch_iff_equal : forall from to p from' to',
+  m7396_doc from = true -> m7396_doc to = true -> no_null_member to = true -> m7396_depth_ok to = true ->
+  is_object from = true -> is_object to = true ->
+  cJSONUtils_GenerateMergePatchCaseSensitive (Some from) (Some to) = Ok (p, from', to') ->
+  (p = None <-> doc_eq from to = true).
+Proof. exact c18_no_patch_iff_equal. Qed.
+Print Assumptions C18_no_patch_iff_equal.
+
 (** … at every nesting level: the recursive function itself, for any fuel it was called with. *)
 Theorem C18_generate_every_level : forall fuel from to p from' to',
   gd from -> gd to -> no_null_member to = true -> depth_ok to ->
